@@ -716,7 +716,10 @@ func (w *worker) index(idx value, n int) int {
 		return int(asInt64(w.concrete(idx)))
 	}
 	i := asInt64(idx)
-	if i < 0 || i >= int64(n) {
+	if i < 0 {
+		panic(runtimeError(fmt.Sprintf("index out of range [%d]", i)))
+	}
+	if i >= int64(n) {
 		panic(runtimeError(fmt.Sprintf("index out of range [%d] with length %d", i, n)))
 	}
 	return int(i)
@@ -1059,4 +1062,37 @@ func collectInner(c *value, cells map[*value]bool, maps map[*omap]bool, seenSlic
 	case structure, array, []value, *value, iface, *omap, *closure, rval:
 		collectReachable(x, cells, maps, seenSlices)
 	}
+}
+
+// RunConcrete interprets a niladic function returning a string, without
+// symbolic inputs (conformance runs).
+func (p *program) RunConcrete(name string, trace bool) (res string, err error) {
+	fn := p.harnessFunc(name)
+	if fn == nil {
+		return "", fmt.Errorf("function %q not found", name)
+	}
+	ex := &Explorer{prog: p, cfg: Config{Harness: name, MaxSteps: 200_000_000, MaxDepth: 400, SolverKind: "z3", SolverTOms: 10000, Concrete: map[string]string{}, Trace: trace}, fn: fn, stats: newStats(name)}
+	ex.cond = sync.NewCond(&ex.mu)
+	w, err := ex.newWorker(0)
+	if err != nil {
+		return "", err
+	}
+	defer w.solver.Close()
+	w.resetPath(nil)
+	w.solver.BeginPath()
+	w.ip.sched = newSched()
+	defer func() {
+		if r := recover(); r != nil {
+			err = fmt.Errorf("engine run of %s failed: %s", name, describeAbort(r))
+		}
+		w.ip.sched.killAll()
+	}()
+	w.resetGlobals()
+	v := callSSA(w.ip, nil, 0, fn, nil, nil)
+	w.ip.sched.finish(w)
+	s, ok := v.(string)
+	if !ok {
+		return "", fmt.Errorf("%s returned %T, not a concrete string", name, v)
+	}
+	return s, nil
 }
